@@ -178,7 +178,7 @@ def gen_problem(rng, algs, alg_name=None, n=None, box=None, with_constraints=Non
 KEYS_HEX = ["stopval", "ftol_rel", "ftol_abs", "xtol_rel", "maxtime", "clockq"]
 KEYS_LIST = ["lb", "ub", "x0", "oc", "xtol_abs", "xw", "dx"]
 KEYS_RAW = ["alg", "n", "obj", "max", "maxeval", "pop", "vs", "seed", "ineq", "eq", "local", "stopat", "setforce", "forceval", "inj", "injc",
-            "runs", "copy", "noobj", "nullx", "nullf", "params", "reseed", "quietx", "hooks", "runanyway", "negobj", "full_n", "fix", "legacy", "nullopt"]
+            "runs", "copy", "noobj", "nullx", "nullf", "params", "reseed", "quietx", "hooks", "runanyway", "negobj", "full_n", "fix", "legacy", "nullopt", "gpop", "glocal"]
 
 
 def to_line(p):
